@@ -193,6 +193,11 @@ class PVLEncoder(object):
 
         if len(prefix + s + self.newline) > self.width and "=" in s:
             (preq, _, posteq) = s.partition("=")
+            if posteq.strip() == "":
+                # Nothing after the equals sign to wrap (the value gets
+                # appended by the caller), wrapping would lose the rest.
+                return prefix + s
+
             new_prefix = prefix + preq.strip() + " = "
 
             lines = textwrap.wrap(
